@@ -55,6 +55,8 @@ type Case struct {
 	Snapshot  bool   `json:"snapshot"`
 	CLeft     int64  `json:"cleft"`
 	CRight    int64  `json:"cright"`
+	// SetRunIdFails: the target is unreachable for the first n run-id updates (the attempt ends there; the tool reconnects 2 s later)
+	SetRunIdFails int `json:"setRunIdFails,omitempty"`
 }
 
 func genCase(t *rapid.T) Case {
@@ -98,6 +100,13 @@ func genCase(t *rapid.T) Case {
 		a = b
 	}
 	c.CLeft, c.CRight = a, b
+	if rapid.IntRange(0, 13).Draw(t, "setRunIdFails") == 0 {
+		c.SetRunIdFails = 1
+		if rapid.Bool().Draw(t, "backlogCoversCache") && c.CRight >= 1 && c.CRight < c.Master {
+			// the source's backlog reaches back to where the cache ends, so a PSYNC from there would be granted
+			c.Backlog = rapid.Int64Range(1, c.CRight+1).Draw(t, "backlog2")
+		}
+	}
 	return c
 }
 
@@ -113,15 +122,16 @@ type sendRec struct {
 
 // stubOutput plays the target side: it remembers a position, hands it out, and adopts the snapshot offset after a snapshot was consumed.
 type stubOutput struct {
-	mu     sync.Mutex
-	runID  string
-	offset int64
-	has    bool
-	sends  []*sendRec
-	setIDs []string
-	enough chan struct{}
-	once   sync.Once
-	want   int
+	mu           sync.Mutex
+	runID        string
+	offset       int64
+	has          bool
+	sends        []*sendRec
+	setIDs       []string
+	enough       chan struct{}
+	once         sync.Once
+	want         int
+	failSetRunId int
 }
 
 func (o *stubOutput) StartPoint(ctx context.Context, ids []string) (syncer.StartPoint, error) {
@@ -143,6 +153,10 @@ func (o *stubOutput) SetRunId(ctx context.Context, id string) error {
 	o.mu.Lock()
 	defer o.mu.Unlock()
 	o.setIDs = append(o.setIDs, id)
+	if o.failSetRunId > 0 {
+		o.failSetRunId--
+		return fmt.Errorf("dial tcp: connection refused (injected: target unreachable)")
+	}
 	if o.has && o.runID != id {
 		// RedisOutput.SetRunId -> UpdateCheckpoint re-labels the stored position (ids = [new, old])
 		o.runID = id
@@ -270,7 +284,7 @@ func run(c Case) (fs []failure, inconc string, facts map[string]bool, hist any) 
 		ch.StopWriter()
 	}
 	// the target's memory
-	out := &stubOutput{enough: make(chan struct{}), want: 16}
+	out := &stubOutput{enough: make(chan struct{}), want: 16, failSetRunId: c.SetRunIdFails}
 	switch c.OutKind {
 	case "cur":
 		out.runID, out.offset, out.has = cur.RunID(), c.OutOff, true
@@ -404,6 +418,9 @@ func run(c Case) (fs []failure, inconc string, facts map[string]bool, hist any) 
 	}
 	if len(psyncs) > 0 && psyncs[0].Reply == "CONTINUE" && first.Aof && storedHas {
 		facts["partial-resync-granted"] = true
+	}
+	if c.SetRunIdFails > 0 {
+		facts["second-connection-after-failed-run-id-update"] = true
 	}
 	facts["src:"+c.SrcKind] = true
 	facts["out:"+c.OutKind] = true
